@@ -31,7 +31,17 @@ def main():
 
     sub.mw = _MW  # observe the cut family the enumerator supplied (first call only)
     ni, gs = src['net']
-    c = gen.materialize((ni, [(t, list(o)) for t, o in gs]), outputs=src['outs'])
+    import random as _random
+
+    def build():
+        net = (ni, [(t, list(o)) for t, o in gs])
+        if src.get('storage') == 'shuffled':
+            order = list(range(ni + len(gs)))
+            _random.Random(src.get('ss', 0)).shuffle(order)
+            return gen.materialize(net, outputs=src['outs'], storage=order)
+        return gen.materialize(net, outputs=src['outs'])
+
+    c = build()
     orig = project(copy.deepcopy(c))
     out = {'orig': orig, 'exc': '', 'where': '', 'stmt': ''}
     basis = src['basis']
@@ -41,13 +51,20 @@ def main():
         res = minimize_subcircuits(
             c, basis, enable_validation=src['validation'], max_subcircuit_size=src['max_size'],
             solver_time_limit_sec=src['time_limit'], cut_size=src['cut_size'], cut_limit=src['cut_limit'])
+        supported = {'INPUT', 'NOT', 'AND', 'NAND', 'OR', 'NOR', 'XOR', 'NXOR', 'GEQ', 'GT', 'LEQ', 'LT'}
+        # a second pass only if the first result is still a circuit over the supported gate set
+        if src.get('twice') and all(g.gate_type.name in supported for g in res.gates.values()):
+            out['first'] = project(res)
+            res = minimize_subcircuits(
+                res, basis, enable_validation=src['validation'], max_subcircuit_size=src['max_size'],
+                solver_time_limit_sec=src['time_limit'], cut_size=src['cut_size'], cut_limit=src['cut_limit'])
         out['res'] = project(res)
     except Exception as e:
         out['exc'] = type(e).__name__
         if out['exc'] == 'FailedValidationError':
             # validation only REPORTS the wrong result: fetch that result for the judge
             try:
-                c2 = gen.materialize((ni, [(t, list(o)) for t, o in gs]), outputs=src['outs'])
+                c2 = build()
                 res2 = minimize_subcircuits(
                     c2, basis, enable_validation=False, max_subcircuit_size=src['max_size'],
                     solver_time_limit_sec=src['time_limit'], cut_size=src['cut_size'], cut_limit=src['cut_limit'])
